@@ -240,6 +240,24 @@ def check_c(ck, repo):
     ck.verdict(okd and sorted(seen) == sorted(order), "C15.c", init, f"default method by paths: {seen}", "default method: transform, predict_proba, decision_function, predict - each test sets its own name", "default method resolution sets a name different from the attribute it tested, or the preference order changed")
 
 
+def check_fit_kwargs(ck, repo):
+    """the wrappers train the wrapped model as a direct fit would: the fitting parameters they
+    receive are handed on as they are"""
+    for mod_, cname in (("mlinsights.sklapi.sklearn_base_transform_learner", "SkBaseTransformLearner"), ("mlinsights.sklapi.sklearn_base_transform_stacking", "SkBaseTransformStacking")):
+        try:
+            ci = repo.cls(mod_, cname)
+        except Exception:
+            continue
+        fit = ci.methods.get("fit")
+        if fit is None or fit.node.args.kwarg is None:
+            continue
+        kw = fit.node.args.kwarg.arg
+        reb = [s_ for s_ in own_nodes(fit.node) if isinstance(s_, (ast.Assign, ast.AugAssign, ast.Delete)) and any(isinstance(t_, ast.Name) and t_.id == kw for t_ in (s_.targets if isinstance(s_, (ast.Assign, ast.Delete)) else [s_.target]))]
+        pops = [c_ for c_ in own_nodes(fit.node) if isinstance(c_, ast.Call) and isinstance(c_.func, ast.Attribute) and src_of(c_.func.value) == kw and c_.func.attr in ("pop", "clear", "popitem", "update", "setdefault")]
+        fwd = [c_ for c_ in own_nodes(fit.node) if isinstance(c_, ast.Call) and isinstance(c_.func, ast.Attribute) and c_.func.attr == "fit" and any(k_.arg is None and src_of(k_.value) == kw for k_ in c_.keywords)]
+        ck.verdict(bool(fwd) and not reb and not pops, "C15.a", fit, (reb or pops or fwd or [fit.node])[0], f"**{kw} reaches the wrapped fit unchanged", f"{cname}.fit changes or filters **{kw} before the wrapped model is trained ({src_of((reb or pops)[0])[:60] if (reb or pops) else 'not forwarded'}): parameters routed by name (`step__sample_weight` of a wrapped pipeline, parameters taken through **params) are dropped, so the wrapped model is not trained as a direct fit would")
+
+
 def run(ck):
     repo = ck.repo
     for k, v in RULES.items():
@@ -247,6 +265,7 @@ def run(ck):
     check_a(ck, repo)
     check_b(ck, repo)
     check_c(ck, repo)
+    check_fit_kwargs(ck, repo)
     # shared clauses: the bound method follows the model (C01.g), the copy used by
     # TransferTransformer(copy_estimator=True) shares nothing with the original (C04.c)
     from .c01 import check_g
